@@ -18,27 +18,27 @@ import (
 // ---------------------------------------------------------------------------
 
 type sthread struct {
-	id     int
-	wake   chan struct{}
-	probe  func() bool // nil = always enabled
-	done   bool
-	panicV interface{}
-	held   int // lockers currently held through wrapped lockers
+	id      int
+	wake    chan struct{}
+	probe   func() bool // nil = always enabled
+	done    bool
+	panicV  interface{}
+	held    int // lockers currently held through wrapped lockers
 	maxHeld int
 }
 
 type Sched struct {
-	threads []*sthread
-	current int
-	parked  chan int
-	step    int
-	trace   [][2]int // (choice index, number enabled)
-	sched   []int    // prefix of choices; beyond it choose 0
-	Deadlock bool
+	threads    []*sthread
+	current    int
+	parked     chan int
+	step       int
+	trace      [][2]int // (choice index, number enabled)
+	sched      []int    // prefix of choices; beyond it choose 0
+	Deadlock   bool
 	HarnessErr string
-	switches int
-	last     int
-	overlapOK bool
+	switches   int
+	last       int
+	overlapOK  bool
 }
 
 func NewSched(prefix []int) *Sched {
@@ -132,11 +132,11 @@ func NextPrefix(trace [][2]int) []int {
 // slocker wraps one entry of a lock table.  Lock = yield with a side-effect
 // free probe, then TryLock/TryRLock on the real locker.
 type slocker struct {
-	s     **Sched // the scheduler of the current run
-	try   func() bool
-	unl   func()
-	name  string
-	log   *[]string
+	s    **Sched // the scheduler of the current run
+	try  func() bool
+	unl  func()
+	name string
+	log  *[]string
 }
 
 func (l *slocker) Lock() {
@@ -246,8 +246,8 @@ type tierStore struct {
 	m     map[string]tierItem
 	calls int
 	// fault injection (C12): at call number failAt (1-based) return failErr or panic
-	failAt   int
-	failErr  error
+	failAt    int
+	failErr   error
 	failPanic bool
 }
 
